@@ -851,7 +851,7 @@ class _ExecutorManagerThread(threading.Thread):
         self.kill_workers(reason="broken executor")
 
         # clean up resources
-        self.join_executor_internals()
+        self.join_executor_internals(broken=True)
 
     def flag_executor_shutting_down(self):
         # Flag the executor as shutting down and cancel remaining tasks if
@@ -938,8 +938,14 @@ class _ExecutorManagerThread(threading.Thread):
 
         mp.util.debug(f"sent {n_sentinels_sent} sentinels to the call queue")
 
-    def join_executor_internals(self):
-        self.shutdown_workers()
+    def join_executor_internals(self, broken=False):
+        # When the executor is broken, all the workers have already been
+        # killed and joined by kill_workers. One of them can have died while
+        # holding the processes_management_lock (workers take it when their
+        # idle timeout expires), in which case it is never released: it must
+        # not be acquired in that case.
+        if not broken:
+            self.shutdown_workers()
 
         # Release the queue's resources as soon as possible. Flag the feeder
         # thread for clean exit to avoid having the crash detection thread flag
@@ -957,6 +963,9 @@ class _ExecutorManagerThread(threading.Thread):
         mp.util.debug("closing thread_wakeup")
         with self.shutdown_lock:
             self.thread_wakeup.close()
+
+        if broken:
+            return
 
         # If .join() is not called on the created processes then
         # some ctx.Queue methods may deadlock on macOS.
